@@ -133,6 +133,14 @@ var worldTable = map[string]worldFn{}
 
 func register(name string, fn worldFn) { worldTable[name] = fn }
 
+// WorldFn / RegisterWorld let harnesses living in other packages (cmd/hidi's package main) plug in.
+type WorldFn = worldFn
+
+func RegisterWorld(name string, fn WorldFn) { worldTable[name] = fn }
+
+// AddCounts is addCounts for other packages.
+func AddCounts(dst, src map[string]int) { addCounts(dst, src) }
+
 func addCounts(dst, src map[string]int) {
 	for k, v := range src {
 		dst[k] += v
